@@ -4,7 +4,7 @@
    ARGS_GET_CLASS / ARGS_CREATE_INSTANCE / ARGS_REQUIRED of harness/src_functions.py), for every record of importlib /
    pkgutil / inspect primitives and all inputs; and facts about the models. *)
 From Coq Require Import ZArith List Bool Lia.
-From Batchie Require Import Lib.Sexp Lib.PyRt Model.Cli Generated.SrcCli Generated.SrcCliArgs Proofs.PyRtLemmas.
+From Batchie Require Import Lib.Sexp Lib.PyRt Model.Cli Generated.SrcCli Generated.SrcCliArgs Proofs.PyRtLemmas Proofs.C18SourceArgs.
 Import ListNotations.
 Open Scope Z_scope.
 
@@ -145,3 +145,36 @@ Section Introspect.
     apply G. intros k t [].
   Qed.
 End Introspect.
+
+(* ---------- everything from the source: the introspection record made of the TRANSLATED functions ---------- *)
+Definition introspect_src {Mod Obj : Type} (W : pyworld Mod Obj) : introspect Obj :=
+  mk_introspect (src_get_class Mod Obj W) (src_get_required_init_args Mod Obj W).
+
+(* the get_args() models use their introspection record only by applying its two functions *)
+Lemma resolve_ext {Cls F O : Type} (I1 I2 : introspect Cls) (P : pyprims F O) :
+  (forall a b c, i_get_class I1 a b c = i_get_class I2 a b c) -> (forall c, i_required I1 c = i_required I2 c) ->
+  forall base name param, resolve I1 P base name param = resolve I2 P base name param.
+Proof.
+  intros H1 H2 base name param. unfold resolve. rewrite H1.
+  destruct (i_get_class I2 s_batchie name base) as [c|e]; cbn [res_bind]; [|reflexivity].
+  now rewrite H2.
+Qed.
+
+Lemma resolve_src {Mod Obj F O : Type} (W : pyworld Mod Obj) (P : pyprims F O) :
+  forall base name param, resolve (introspect_src W) P base name param = resolve (introspect_of W) P base name param.
+Proof.
+  apply resolve_ext; intros; cbn [introspect_src introspect_of i_get_class i_required].
+  - apply src_get_class_is_model.
+  - apply src_get_required_init_args_is_model.
+Qed.
+
+Theorem src_cli_calculate_scores_cmd_world :
+  forall (Mod Obj F O : Type) (W : pyworld Mod Obj) (P : pyprims F O) (Scr Pl Th Dm Sc H : Type)
+         (construct : Obj -> list (str * pval F O) -> result Sc) (L : cs_lib Scr Pl Th Dm Sc H) (mix : Z -> Z)
+         (raw : cs_ns Obj F O),
+  src_cli_calculate_scores_cmd Obj F O (introspect_src W) P Scr Pl Th Dm Sc H construct L mix raw
+  = cli_calculate_scores_cmd (introspect_of W) P construct L mix raw.
+Proof.
+  intros. rewrite src_cli_calculate_scores_cmd_is_model.
+  unfold cli_calculate_scores_cmd, cs_get_args. now rewrite resolve_src.
+Qed.
